@@ -61,6 +61,18 @@ func checkC04(c *Ctx) {
 	tab := c.pipelineTable()
 	rng := rand.New(rand.NewSource(c.Seed))
 	gs := append(curatedSyn(), repoSynGrammars()...)
+	verbose := func(seed int64) {
+		// coverage of the specification beyond the property: the -v listings of the same kind of
+		// grammars against CFG.tla / LR1.tla (never a verdict)
+		vr := rand.New(rand.NewSource(seed + 77))
+		vg := append(curatedSyn(), curatedErrSyn()...)
+		for i := 0; i < c.pick(20, 150); i++ {
+			o := c04Opts
+			o.PDup, o.ErrorAlts = 0, i%4 == 0
+			vg = append(vg, genSynGrammar(vr, o))
+		}
+		c.verboseLeg(vg)
+	}
 	n := c.pick(60, 4000)
 	for i := 0; i < n; i++ {
 		o := c04Opts
@@ -137,6 +149,7 @@ func checkC04(c *Ctx) {
 			}
 		}
 	}
+	verbose(c.Seed)
 }
 
 func compareGoccConflicts(run GoccRun, exp goccExpect) string {
